@@ -27,6 +27,7 @@ def run(chk):
     r4(chk, prog)
     r5(chk, prog)
     r6(chk, prog)
+    r7(chk, prog)
     from . import c11
     with chk.shared():
         c11.r7(chk, prog, prog.module("json_object.c"))   # shared: the sign-encoded string length is decoded before use
@@ -784,3 +785,101 @@ def r6(chk, prog):
             else:
                 chk.proven(rid, fname, cls, f.entry.term.locstr(), "as required on %d texts" % cnt.get(cls, 0))
     chk.floor(rid, n, 5000, "(helper, text) evaluations")
+
+
+# ---------------------------------------------------------------------------
+# R7 the increment, evaluated
+def r7(chk, prog):
+    from .. import pe
+    rid = "C10.R7"
+    chk.rule(rid, "json_object_int_inc evaluated on every (representation, stored value, increment) triple over the boundary values "
+                  "(INT64_MIN, INT64_MIN+1, -10, -1, 0, 1, 10, INT64_MAX-1, INT64_MAX as signed; 0, 1, INT64_MAX, 2^63, UINT64_MAX-1, "
+                  "UINT64_MAX as unsigned; increments INT64_MIN, INT64_MIN+1, -10, -1, 0, 1, 3, 10, INT64_MAX): afterwards the node "
+                  "denotes the exact sum clamped to [INT64_MIN, UINT64_MAX] - read through its representation tag - and 1 is returned")
+    m = prog.module("json_object.c")
+    f = m.functions.get("json_object_int_inc")
+    chk.require(f is not None and not f.is_decl, "json_object_int_inc not found")
+    chk.touched(f)
+    tags = m.enumerators("json_object_int_type")
+    T_I, T_U = tags["json_object_int_type_int64"], tags["json_object_int_type_uint64"]
+    types = m.enumerators("json_type")
+    names = m.struct_fields("%struct.json_object_int")
+    chk.require(names and "cint_type" in names and "cint" in names, "layout of struct json_object_int not found")
+    K_TAG, K_VAL = names.index("cint_type"), names.index("cint")
+
+    class IncPE(pe.PE):
+        def should_inline(self, g, instr):
+            return g.internal
+
+        def init_mem(self, state, base, path, t):
+            if base != "jso":
+                return pe.TOP
+            q = [x for x in path if x != ("i", 0)]
+            k = 0 if not q else (q[0] if isinstance(q[0], int) else q[0][2] if isinstance(q[0], tuple) and q[0][0] == "f" else None)
+            if not q:
+                return pe.C(types["json_type_int"])
+            if k == K_TAG and len(q) == 1:
+                return pe.C(self.tag0)
+            if k == K_VAL:
+                return pe.C(self.val0)
+            return pe.TOP
+
+        def call_model(self, state, frame, i, args):
+            if i.callee in ("json_abort", "__assert_fail", "abort"):
+                return "STOP"
+            return None
+    SV = [I64MIN, I64MIN + 1, -10, -1, 0, 1, 10, I64MAX - 1, I64MAX]
+    UV = [0, 1, I64MAX, 1 << 63, U64MAX - 1, U64MAX]
+    INC = [I64MIN, I64MIN + 1, -10, -1, 0, 1, 3, 10, I64MAX]
+    n = 0
+    CLS = {"signed representation, result stays signed": None, "signed representation, result needs the unsigned one": None,
+           "signed representation, result below INT64_MIN": None, "unsigned representation, result stays non-negative": None,
+           "unsigned representation, result negative": None, "unsigned representation, result above UINT64_MAX": None}
+    bad, und, cnt = {}, {}, {}
+    for tag, vals in ((T_I, SV), (T_U, UV)):
+        for v in vals:
+            for inc in INC:
+                S = v + inc
+                want = min(max(S, I64MIN), U64MAX)
+                if tag == T_I:
+                    cls = ("signed representation, result below INT64_MIN" if S < I64MIN else
+                           "signed representation, result needs the unsigned one" if S > I64MAX else "signed representation, result stays signed")
+                else:
+                    cls = ("unsigned representation, result above UINT64_MAX" if S > U64MAX else
+                           "unsigned representation, result negative" if S < 0 else "unsigned representation, result stays non-negative")
+                h = IncPE(prog, max_leaves=20, max_steps=5000)
+                h.tag0 = tag
+                h.val0 = v if v <= I64MAX else v - (1 << 64)
+                try:
+                    leaves = h.run(f, [("ptr", "jso", ()), pe.C(inc)], pe.State())
+                except Exception as e:
+                    und.setdefault(cls, "%s: %s" % ((v, inc), e))
+                    continue
+                n += 1
+                cnt[cls] = cnt.get(cls, 0) + 1
+                rets = [lf for lf in leaves if lf.kind == "ret"]
+                if len(rets) != 1 or rets[0].value is None or not pe.is_const(rets[0].value):
+                    und.setdefault(cls, "value %d, increment %d: the evaluation does not end in one concrete return" % (v, inc))
+                    continue
+                lf = rets[0]
+                t2 = h.load(lf.state, h._gep(("ptr", "jso", ()), [pe.C(0), pe.C(K_TAG)], "%struct.json_object_int"), "i32")
+                v2 = h.load(lf.state, h._gep(("ptr", "jso", ()), [pe.C(0), pe.C(K_VAL)], "%struct.json_object_int"), "i64")
+                if not (pe.is_const(t2) and pe.is_const(v2)):
+                    und.setdefault(cls, "value %d, increment %d: the stored tag / value is not concrete afterwards" % (v, inc))
+                    continue
+                got = v2[1] % (1 << 64) if t2[1] == T_U else (v2[1] if v2[1] <= I64MAX else v2[1] - (1 << 64)) if t2[1] == T_I else None
+                if got is not None and got > I64MAX and t2[1] == T_I:
+                    got -= 1 << 64
+                if (got != want or lf.value[1] != 1) and cls not in bad:
+                    bad[cls] = ("a node holding %d as %s incremented by %d afterwards denotes %s as %s (returns %d); the exact sum clamped to "
+                                "[INT64_MIN, UINT64_MAX] is %d" % (v, "int64" if tag == T_I else "uint64", inc, got,
+                                                                    "int64" if t2[1] == T_I else "uint64" if t2[1] == T_U else "tag %d" % t2[1],
+                                                                    lf.value[1], want))
+    for cls in CLS:
+        if cls in bad:
+            chk.refuted(rid, f.name, cls, f.entry.term.locstr(), bad[cls])
+        elif cls in und:
+            chk.undecided(rid, f.name, cls, f.entry.term.locstr(), und[cls])
+        else:
+            chk.proven(rid, f.name, cls, f.entry.term.locstr(), "exact or saturated on %d triples" % cnt.get(cls, 0))
+    chk.floor(rid, n, 80, "(representation, value, increment) triples")
